@@ -950,6 +950,10 @@ from mlmverif.selfcheck import B, OK  # noqa: E402
 
 _F = 'utils/iter_utils.py'
 VARIANTS = [
+    OK('stop-link-through-a-local', 'utils/iter_utils.py',
+       "    result.stop_with(input_iterable)\n", "    upstream = input_iterable\n    result.stop_with(upstream)\n"),
+    OK('put-through-a-local', 'utils/iter_utils.py',
+       "          self._put_nowait(value)\n", "          item = value\n          self._put_nowait(item)\n"),
     OK('class-level-immutable-default', 'utils/iter_utils.py',
        "  ignore_error: bool\n\n  def __init__(\n", "  ignore_error: bool\n  _kind: str = 'iterator-queue'\n  _no_links: tuple = ()\n\n  def __init__(\n"),
     B('stop-links-in-a-class-attribute', 'utils/iter_utils.py',
